@@ -36,6 +36,82 @@ mut("forget-future-annotations", ["C01"], "code_data/_code_data.py",
 mut("expand-max-bytecode-254", ["C01", "C10"], "code_data/_line_mapping.py",
     "MAX_BYTECODE = 254 if is_linetable else 255", "MAX_BYTECODE = 254 if is_linetable else 254")
 
+# ---- C14
+mut("iter-ignores-additional-args", ["C14"], "code_data/__init__.py",
+    "        args.extend(self._additional_args)\n", "")
+mut("iter-yields-per-instruction", ["C14"], "code_data/__init__.py",
+    "                if key not in seen:\n", "                if True:\n")
+mut("all-code-data-not-recursive", ["C14"], "code_data/__init__.py",
+    "            yield from code_data.all_code_data()", "            yield code_data")
+mut("all-code-data-children-first", ["C14"], "code_data/__init__.py",
+    "        yield self\n        for code_data in self:\n            yield from code_data.all_code_data()",
+    "        for code_data in self:\n            yield from code_data.all_code_data()\n        yield self")
+
+# ---- C04
+mut("varargs-before-kwonly", ["C04"], "code_data/_args.py",
+    """    keyword_only, varnames = (
+        varnames[:kwonlyargcount],
+        varnames[kwonlyargcount:],
+    )
+    if "VARARGS" in flags_data:
+        var_positional, varnames = varnames[0], varnames[1:]
+        flags_data.remove("VARARGS")
+    else:
+        var_positional = None
+""", """    if "VARARGS" in flags_data:
+        var_positional, varnames = varnames[kwonlyargcount], varnames[:kwonlyargcount] + varnames[kwonlyargcount + 1:]
+        flags_data.remove("VARARGS")
+    else:
+        var_positional = None
+    keyword_only, varnames = (
+        varnames[:kwonlyargcount][::-1],
+        varnames[kwonlyargcount:],
+    )
+""")
+mut("docstring-from-last-const", ["C04"], "code_data/_code_data.py",
+    "constants[0] if constants and isinstance(constants[0], str) else None",
+    "constants[-1] if constants and isinstance(constants[-1], str) else None")
+mut("coroutine-as-generator", ["C04"], "code_data/_code_data.py",
+    "        fn_tp = fn_tp_flags.pop() if fn_tp_flags else None\n        if fn_tp:\n            flags_data.remove(fn_tp)\n",
+    "        fn_tp = fn_tp_flags.pop() if fn_tp_flags else None\n        if fn_tp:\n            flags_data.remove(fn_tp)\n        if fn_tp == 'COROUTINE' and code.co_argcount == 3:\n            fn_tp = 'GENERATOR'\n")
+mut("len-counts-positional-only", ["C04"], "code_data/__init__.py",
+    "        return len(self.parameters)", "        return len(self.positional_only) + len(self.positional_or_keyword) + len(self.keyword_only)")
+mut("posonly-from-end", ["C04"], "code_data/_args.py",
+    """    positional_only, varnames = (
+        varnames[:posonlyargcount],
+        varnames[posonlyargcount:],
+    )
+    pos_or_kw_count = argcount - posonlyargcount
+    positional_or_keyword, varnames = (
+        varnames[:pos_or_kw_count],
+        varnames[pos_or_kw_count:],
+    )""", """    pos_or_kw_count = argcount - posonlyargcount
+    positional_or_keyword, varnames = (
+        varnames[:pos_or_kw_count],
+        varnames[pos_or_kw_count:],
+    )
+    positional_only, varnames = (
+        varnames[:posonlyargcount],
+        varnames[posonlyargcount:],
+    )""")
+
+# ---- C09
+mut("override-always", ["C09"], "code_data/_blocks.py",
+    "        wrong_position = self._index_to_order[index] != index or first_index != index",
+    "        wrong_position = True")
+mut("rank-is-table-size", ["C09"], "code_data/_blocks.py",
+    "            self._index_to_order[index] = len(self._index_to_order)",
+    "            self._index_to_order[index] = len(self._args)")
+mut("params-not-preseeded", ["C09"], "code_data/_blocks.py",
+    "found_varnames = ToArgs(varnames, {i: i for i in range(len(args.parameters))})",
+    "found_varnames = ToArgs(varnames)")
+mut("additional-args-all", ["C09", "C01"], "code_data/_blocks.py",
+    "            if i not in self._index_to_order:\n                yield self.found_index(i)",
+    "            if i not in self._index_to_order or i == 0:\n                yield self.found_index(i)")
+mut("override-second-use-only", ["C09"], "code_data/_blocks.py",
+    "        if index not in self._index_to_order:\n            self._index_to_order[index] = len(self._index_to_order)\n",
+    "        if index not in self._index_to_order:\n            self._index_to_order[index] = len(self._index_to_order)\n        elif index > 2:\n            return self._args[index], index\n")
+
 
 def run_one(m, props_filter):
     name, props, file, old, new = m
